@@ -8,7 +8,7 @@ namespace {
 const char* kindName(int k) {
   static const char* n[] = {"ClipperD.AddSubject", "ClipperD.AddClip", "ClipperD.AddOpenSubject", "BooleanOp(PathsD)", "Union(PathsD)",
                             "InflatePaths(PathsD)", "RectClip(PathsD)", "RectClipLines(PathsD)", "TrimCollinear(PathD)", "ScalePath",
-                            "MakePath", "MakePathD", "BooleanOp(PathsD,PolyTreeD)"};
+                            "MakePath", "MakePathD", "BooleanOp(PathsD,PolyTreeD)", "ScalePaths(sx,sy)"};
   return n[k];
 }
 
@@ -18,6 +18,7 @@ shim::ProbeArgs argsOf(const Case& c) {
   a.precision = (int)c.I("precision");
   a.paths = toShimD(c.PD("paths"));
   a.scale = c.D("scale", 1.0);
+  a.scaleX = c.D("sx", 1.0); a.scaleY = c.D("sy", 1.0);
   for (auto& p : c.P("list")) for (auto& q : p) { a.list.push_back(q.x); a.list.push_back(q.y); }
   if (c.I("odd")) a.list.push_back(7);
   a.delta = c.D("delta", 1.0);
@@ -43,6 +44,14 @@ Verdict judgeReport(const Case& c) {
   bool pow2 = a.kind <= shim::P_ClipperD_Open || a.kind == shim::P_BooleanOpD || a.kind == shim::P_UnionD || a.kind == shim::P_BooleanOpTreeD;
   double scale = pow2 ? std::pow(2.0, std::ilogb(std::pow(10.0, pclamp)) + 1) : std::pow(10.0, pclamp);
   bool badRange = usesRange && maxc * scale > (double)MAX_COORD;
+  if (a.kind == shim::P_ScalePaths2) {
+    // two independent scales: out of range iff max|x|*sx or max|y|*sy leaves the range (positive scales only)
+    double mx = 0, my = 0;
+    for (auto& p : a.paths) for (auto& q : p) { mx = std::max(mx, std::fabs(q.x)); my = std::max(my, std::fabs(q.y)); }
+    double fx = mx * a.scaleX / (double)MAX_COORD, fy = my * a.scaleY / (double)MAX_COORD;
+    if (a.scaleX <= 0 || a.scaleY <= 0 || std::fabs(fx - 1) < 1e-3 || std::fabs(fy - 1) < 1e-3) { v.discard = true; return v; }
+    badRange = fx > 1 || fy > 1;
+  }
   if (a.kind == shim::P_InflatePathsD && a.delta == 0) badRange = false;  // nothing is scaled: the input is returned as is
   bool badScale = a.kind == shim::P_ScalePath && a.scale == 0;
   bool badPair = (a.kind == shim::P_MakePath || a.kind == shim::P_MakePathD) && (a.list.size() % 2 == 1);
@@ -109,6 +118,18 @@ Case genReport() {
   // make sure one coordinate actually carries the magnitude
   path[G::pick(path.size())].x = G::coin() ? mag : -mag;
   c.pd["paths"] = {path};
+  if (kind == shim::P_ScalePaths2) {
+    // x and y get independent magnitudes relative to the boundary: each axis alone can leave the range
+    static const std::vector<double> f2 = {1e-9, 1e-3, 0.5, 0.99, 1.01, 2.0, 100.0};
+    double sx = G::oneOf(std::vector<double>{1.0, 0.5, 1e-3, 100.0, 1e6}), sy = G::oneOf(std::vector<double>{1.0, 0.5, 1e-3, 100.0, 1e6});
+    double magx = (double)MAX_COORD / sx * G::oneOf(f2), magy = (double)MAX_COORD / sy * G::oneOf(f2);
+    PathD p2;
+    for (int k = 0; k < n; ++k) p2.emplace_back(G::real(-magx, magx), G::real(-magy, magy));
+    p2[G::pick(p2.size())].x = G::coin() ? magx : -magx;
+    p2[G::pick(p2.size())].y = G::coin() ? magy : -magy;
+    c.pd["paths"] = {p2};
+    c.d["sx"] = sx; c.d["sy"] = sy;
+  }
   c.d["scale"] = G::chance(40) ? 0.0 : G::oneOf(std::vector<double>{1.0, -2.0, 0.5, 1e-3, 100.0});
   Path64 lst;
   int ln = (int)G::range(1, 5);
